@@ -1,4 +1,5 @@
 import IndicatifModel.Model.Bar
+import IndicatifModel.Proofs.Rows
 /-!
 # C04 — finishing or dropping always paints the final state (single bar, model level)
 -/
@@ -60,3 +61,66 @@ theorem C04_clear_paints_nothing (b : Bar) : (finalState b .andClear).status = .
   unfold finalState; cases b.len <;> rfl
 
 end IndicatifModel
+
+/-! ## Row level: members of a `MultiProgress` (`Model/Rows.lean`, validated by the `ROWS` stream) -/
+namespace IndicatifModel.Rows
+
+theorem store_lines_self (w : RW) (k : Nat) (rows text : List Row) (hk : k < w.bars.length) :
+    ((store w k rows text).barAt k).lines = rows := by
+  have e : (store w k rows text).barAt k = if k = k ∧ k < w.bars.length then { w.barAt k with lines := rows } else w.barAt k :=
+    barAt_modify w.bars k k _
+  rw [e, if_pos ⟨rfl, hk⟩]
+
+theorem allow_barAt (w : RW) (f : Bool) (j : Nat) : (allow w f).2.barAt j = w.barAt j := by
+  simp only [RW.barAt, allow_bars]
+
+/-- **Finishing a member bar paints its final state, whatever the limiter says**: for every state of the
+`MultiProgress` (any limiter state, any number of other bars, stale or not), `finish*` on a live member
+bar ends with a frame that is not stale, whose managed region is every member's stored rendering in
+visual order, and in which this bar's stored and painted rows are the rendering of its final state. -/
+theorem C04_member_finish_paints_final (w : RW) (k : Nat) (f : Finish) (hk : k < w.bars.length)
+    (ha : (w.barAt k).alive = true) (hm : (w.barAt k).member = true) :
+    let w' := barStep w k (.finish f)
+    let fb : RBar := { w.barAt k with b := finalBar (w.barAt k).b f }
+    w'.stale = false ∧ w'.scr.drop (w'.scr.length - w'.n) = linesOf w' w'.ordering ∧
+    (w'.barAt k).lines = barRows fb ∧ (w'.barAt k).painted = barRows fb ∧ (w'.barAt k).b.finished = true := by
+  intro w' fb
+  have hk' : ¬ k ≥ w.bars.length := by omega
+  have hsb : (setBar w k (finalBar (w.barAt k).b f)).barAt k = fb := by
+    have e : (setBar w k (finalBar (w.barAt k).b f)).barAt k =
+        if k = k ∧ k < w.bars.length then { w.barAt k with b := finalBar (w.barAt k).b f } else w.barAt k := barAt_modify w.bars k k _
+    rw [e, if_pos ⟨rfl, hk⟩]
+  have hmem : ((setBar w k (finalBar (w.barAt k).b f)).barAt k).member = true := by rw [hsb]; exact hm
+  have e : w' = draw (store (setBar w k (finalBar (w.barAt k).b f)) k (barRows fb) []) true [] := by
+    show barStep w k (.finish f) = _
+    have hfm : (!fb.member) = false := by rw [← hsb, hmem]; rfl
+    simp only [barStep, hk', if_false, ha, Bool.not_true, Bool.false_eq_true, finishWith, barDraw, hsb, Bool.true_or, hfm]
+  rcases draw_cases (store (setBar w k (finalBar (w.barAt k).b f)) k (barRows fb) []) true [] with ⟨_, hf, _⟩ | hp
+  · cases hf
+  · obtain ⟨h1, _, h3, h4, h5, h6, _⟩ := paint_frame (allow (store (setBar w k (finalBar (w.barAt k).b f)) k (barRows fb) [])
+        (true || decide ((store (setBar w k (finalBar (w.barAt k).b f)) k (barRows fb) []).orphan ≠ []))).2 []
+    have hl : (w'.barAt k).lines = barRows fb := by
+      rw [e, hp, h5 k, allow_barAt]
+      exact store_lines_self _ k _ _ (by simpa [setBar] using hk)
+    refine ⟨by rw [e, hp]; exact h1, by rw [e, hp]; exact h3, hl, ?_, ?_⟩
+    · rw [← hl, e, hp]; exact h4 k
+    · rw [e, hp, (h6 k).1, allow_barAt, (store_barAt _ k _ _ k).2.1, hsb]
+      exact finalBar_finished _ f
+
+/-- **Finished members keep their last rendering, for every history**: after any clean history from the
+empty `MultiProgress`, while the frame is not stale every finished member that is still in `ordering`
+has its stored rows — the rendering of its final state painted by the finishing call or a later redraw —
+inside the managed region, between the rows of the members before and after it. -/
+theorem C04_finished_rows_remain (lim : Option (Limiter.Cfg × Limiter.St)) (now : Nat) (ops : List MOp)
+    (hc : CleanRunF { limiter := lim, now := now } ops) :
+    let w := run { limiter := lim, now := now } ops
+    ∀ pre k post, w.ordering = pre ++ k :: post → k < w.bars.length → (w.barAt k).b.finished = true →
+      (w.barAt k).member = true → w.stale = false →
+      w.scr.drop (w.scr.length - w.n) = paintedOf w pre ++ (w.barAt k).lines ++ paintedOf w post := by
+  intro w pre k post ho hk hf hm hs
+  have h := frameOk_run ops _ (frameOk_init lim now) hc
+  rw [(h.frame hs).2, ho, paintedOf_append, ← h.synced k hk hf hm]
+  simp only [paintedOf, List.flatMap_cons, List.append_assoc]
+  rfl
+
+end IndicatifModel.Rows
